@@ -1,0 +1,40 @@
+//go:build verif
+
+// Machine-checked specifications for package transport (comment-only file;
+// read by /verif/bin/hopvc, never compiled into the package's behaviour).
+
+package transport
+
+//@ spec bit(b [8]uint64, c uint64) bool = b[(c>>6)&7] & (1 << (c&63)) != 0
+//@
+//@ spec winInv(b [8]uint64, wt uint64, S set[uint64]) bool =
+//@     wt < 1<<63 &&
+//@     (S[wt] || (wt == 0 && (forall c uint64 :: !S[c]))) &&
+//@     (forall c uint64 :: c > wt ==> !S[c]) &&
+//@     (forall c uint64 :: (c>>6) <= (wt>>6) && (c>>6)+7 >= (wt>>6) ==> (bit(b, c) <==> S[c]))
+
+// Base case of the history induction: the zero value represents the empty
+// history.  The inductive step is Mark's first postcondition; Check's
+// postcondition is then the property statement for every reachable state.
+//@ lemma C14.zero_value_is_empty_history: forall b [8]uint64, S set[uint64] ::
+//@     (forall k uint64 :: k < 8 ==> b[k] == 0) && (forall c uint64 :: !S[c]) ==> winInv(b, 0, S)
+
+//@ func (s SlidingWindow) Check(seq uint64) (ok bool)
+//@   property C14
+//@   logical S set[uint64]
+//@   requires seq < 1<<63 && winInv(s.blocks, s.wt, S)
+//@   ensures  ok <==> (!S[seq] && seq+448 >= s.wt)
+
+//@ func (s *SlidingWindow) Mark(seq uint64)
+//@   property C14
+//@   logical S set[uint64]
+//@   requires seq < 1<<63 && winInv(s.blocks, s.wt, S)
+//@   ensures  old(seq+448 >= s.wt) ==> winInv(s.blocks, s.wt, add(S, seq))
+//@   ensures  old(seq+448 >= s.wt) ==> s.wt == (seq > old(s.wt) ? seq : old(s.wt))
+//@   ensures  old(seq+448 <  s.wt) ==> s.wt == old(s.wt) && (forall k uint64 :: k < 8 ==> s.blocks[k] == old(s.blocks[k]))
+//@   loop 1
+//@     invariant i <= diff && diff <= 8 && s.wt == old(s.wt)
+//@     invariant unmaskedCurrentIndex == old(s.wt) >> 6
+//@     invariant diff == ((seq>>6) - (old(s.wt)>>6) > 8 ? 8 : (seq>>6) - (old(s.wt)>>6))
+//@     invariant forall k uint64 :: k < 8 ==> s.blocks[k] == (((k - unmaskedCurrentIndex - 1) & 7) < i ? 0 : old(s.blocks[k]))
+//@     decreases diff - i
